@@ -26,6 +26,7 @@ struct Cfg {
   int vertex = 0; // 0 none, 1 unique point, 2 exhausted after the first event
   int nev = 3;    // decays generated
   int gun_n = 0;  // > 0: the user changed the gun's multiplicity (/gun/number n) before the run
+  bool apply_explicit = false; // after SetConfiguration the user calls ApplyConfiguration() himself (the /bxdecay0/generator/apply command)
   int prev = -1;  // >= 0: index of a configuration the same action object ran first (then SetConfiguration to this one)
   std::string key() const
   {
@@ -37,7 +38,7 @@ struct Cfg {
     s << ":v" << vertex;
     if (nev != 3) s << ":n" << nev;
     if (gun_n) s << ":gun" << gun_n;
-    if (prev >= 0) s << ":after" << prev;
+    if (prev >= 0) s << ":after" << prev << (apply_explicit ? "+apply" : "");
     return s.str();
   }
 };
@@ -169,6 +170,10 @@ static std::string run_cfg(const Cfg & c, const std::set<std::string> & bkg, con
       }
       G4RunManager::GetRunManager()->aborts = 0;
       action.SetConfiguration(ci);
+      if (c.apply_explicit) {
+        try { action.ApplyConfiguration(); } catch (std::exception &) {}
+        G4RunManager::GetRunManager()->aborts = 0;
+      }
     }
     if (c.gun_n > 0) action.GetParticleGun()->SetNumberOfParticles(c.gun_n);
     bxdecay0_g4::UniquePointVertexGenerator upv(G4ThreeVector(1.0, 2.0, 3.0));
@@ -295,13 +300,15 @@ int main(int argc, char ** argv)
           if (isd) {
             for (int mode : {0, 1, 4, 9, 10, 20, 21, 25, -3})
               for (int level : {-1, 0, 1, 99}) {
-                for (int w = 0; w < 3; w++) {
+                for (int w = 0; w < 5; w++) {
                   if (w && !WINDOW_MODES.count(mode)) continue;
                   if (!full && (vertex == 2) && (mode != 1)) continue;
                   Cfg c;
                   c.category = cat; c.nuclide = n; c.seed = seed; c.mode = mode; c.level = level; c.vertex = vertex;
                   if (w == 1) { c.emin = 0.5; c.emax = 1.5; }
                   if (w == 2) { c.emin = 1.5; c.emax = 0.5; }
+                  if (w == 3) { c.emin = 1.0; }   // one-sided ranges: the other bound keeps its default
+                  if (w == 4) { c.emax = 1.5; }
                   cfgs.push_back(c);
                 }
               }
@@ -347,11 +354,13 @@ int main(int argc, char ** argv)
         g.gun_n = n;
         cfgs.push_back(g);
       }
-      for (size_t p = 0; p < npre; p++) {
-        Cfg g = c;
-        g.prev = (int)p;
-        cfgs.push_back(g);
-      }
+      for (size_t p = 0; p < npre; p++)
+        for (int ap = 0; ap < 2; ap++) {
+          Cfg g = c;
+          g.prev = (int)p;
+          g.apply_explicit = ap != 0;
+          cfgs.push_back(g);
+        }
     }
   }
   FILE * fo = fopen(out.c_str(), "w");
